@@ -38,7 +38,7 @@ CHECKS = {
              "keep their Operator / SourceRunner objects and are deployed again in place by the surviving jobs.Job (heartbeat expiry, pause, "
              "re-assembly of the first N registered operators in id order) or by a new Job when the job was killed too; replacement ids sort "
              "after or before the survivors', so survivors move to other key-group ranges and restore other operators' checkpoints; calls of "
-             "the old assembly are delivered late to redeployed survivors; a surviving job publishes the old assembly's checkpoint after the "
+             "the old assembly are delivered late to redeployed survivors; snapshot writes of the old assembly land after the "
              "re-assembly; dkv tuned as in the deep arms and the garbage collector forced after every such restart.",
         note="Bounded constants (worker counts 1..3); one assembly per job (a restart is a new Job + fresh workers; the worker count only "
              "changes with such a restart; of a re-assembly inside a living job the restart arm - Restart.tla stepped through start() of the real "
